@@ -510,6 +510,9 @@ class Lower:
         return '%s(%s)' % (n['name'], self.ctype(n['argType']))
 
     def e_InitListExpr(self, n):
+        st = self.stubs.get('ctor:%s/%d' % (norm_type(self.qt(n)), len(self.inner(n))))
+        if isinstance(st, dict):             # T{...} of a stubbed library class
+            return self.stub_expand(st, None, [self.E(c) for c in self.inner(n)], n)
         return '{' + ', '.join(self.E(c) for c in self.inner(n)) + '}'
 
     def e_CXXStdInitializerListExpr(self, n):
@@ -769,6 +772,8 @@ class Lower:
     def stub_expand(self, st, objp, argl, n):
         """stub given as {'expr': 'template with $this $0 $1'}"""
         x = st['expr']
+        if 'expr_lam' in st and any(a.strip().startswith('VS_LAM(') for a in argl):
+            x = st['expr_lam']
         lo = st.get('literal_only')
         if lo and not all(a.strip().startswith('"') for i, a in enumerate(argl) if lo is True or i in lo):
             raise Abort('stub %r is only valid for string literals (in %s)' % (x, self.cur_fn))
@@ -776,6 +781,14 @@ class Lower:
             x = x.replace('$this', objp)
         for i, a in enumerate(argl):
             x = x.replace('$%d' % i, a)
+        if st.get('stmt_result'):         # the template is a statement that leaves its result in $RES
+            if self.cur_spec.get('hoist_all') and self.loop_depth:
+                raise Abort('statement stub in a loop of a hoist_all function (%s)' % self.cur_fn)
+            t = 'vs_t%d' % self.tmp
+            self.tmp += 1
+            self.pre.append('%s %s;' % (st['stmt_result'], t))
+            self.pre.append(x.replace('$RES', t) + ';')
+            return t
         return x
 
     def default_call(self, label, n, argnodes, objnode=None, sig=''):
@@ -1100,7 +1113,18 @@ class Lower:
         raise Abort('constructor %s %s not lowered (in %s)' % (recq, want, self.cur_fn))
 
     def e_LambdaExpr(self, n):
-        raise Abort('lambda expression outside a declaration in %s' % self.cur_fn)
+        """a lambda written in an argument position: lowered like a declared one (closure object + function), named lam<N>; the
+        expression denotes the pair VS_LAM(function, &closure), which the algorithm stubs apply with VS_CALL1/VS_CALL2"""
+        if self.cur_spec.get('hoist_all') and self.loop_depth:
+            raise Abort('lambda expression in a loop of a hoist_all function (%s)' % self.cur_fn)
+        self.lam_ord = getattr(self, 'lam_ord', {})
+        k = self.lam_ord.get(self.cur_fn, 0)
+        self.lam_ord[self.cur_fn] = k + 1
+        v = {'name': 'lam%d' % k}
+        fn = self.cur_fn + '__' + v['name']
+        decl = self.lambda_decl(v, n, 0)
+        self.pre.append(decl.strip())
+        return 'VS_LAM(%s, &%s)' % (fn, v['name'])
 
     # ------------------------------------------------------------------ statements
     def line(self, n, pad):
@@ -1192,7 +1216,7 @@ class Lower:
                 self.scopes.pop()
                 self.loop_depth.pop()
                 self.loop_id_stack.pop()
-                return ln + pad + 'while (1)\n' + lc + pad + '{\n' + pad + '    VS_REACH(%s);\n' % self.reach_label('loop') + pre + \
+                return ln + pad + 'while (1)\n' + lc + pad + '{\n' + pad + '    ' + self.loop_head() + pre + \
                     pad + '    if (!(%s)) break;\n' % c + b + pad + '}\n'
             self.loop_depth.append(len(self.scopes))
             b = self.blk(ins[1], ind, reach=True)
@@ -1263,7 +1287,7 @@ class Lower:
             self.scopes.pop()
             s = ln + pad + '{\n' + pad + '    %s%s = 0;\n' % ('' if hoist else 'size_t ', iv)
             s += pad + '    for (; %s < %s; ++%s)\n' % (iv, count, iv) + lc
-            s += pad + '    {\n' + pad + '        VS_REACH(%s);\n' % self.reach_label('loop')
+            s += pad + '    {\n' + pad + '        ' + self.loop_head()
             s += pad + '        %s%s = &(%s)[%s];\n' % ('' if hoist else lct + ' ', lvd['name'], arr, iv) + bs + dt + pad + '    }\n' + pad + '}\n'
             return s
         if k == 'CXXForRangeStmt':
@@ -1283,7 +1307,7 @@ class Lower:
             self.loop_depth.pop()
             self.loop_id_stack.pop()
             s += pad + '    for (; %s; %s)\n' % (c, i) + lc
-            s += pad + '    {\n' + pad + '        VS_REACH(%s);\n' % self.reach_label('loop') + lvs + bs + dt + pad + '    }\n' + pad + '}\n'
+            s += pad + '    {\n' + pad + '        ' + self.loop_head() + lvs + bs + dt + pad + '    }\n' + pad + '}\n'
             self.scopes.pop()
             return s
         if k == 'BreakStmt':
@@ -1410,7 +1434,7 @@ class Lower:
         return out
 
     def blk(self, n, ind, reach=False):
-        r = ('    ' * (ind + 1) + 'VS_REACH(%s);\n' % self.reach_label('loop')) if reach else ''
+        r = ('    ' * (ind + 1) + self.loop_head()) if reach else ''
         if n.get('kind') == 'CompoundStmt':
             s = self.S(n, ind)
             if reach:
@@ -1422,6 +1446,13 @@ class Lower:
         s = self.S(n, ind + 1)
         self.scopes.pop()
         return pad + '{\n' + r + s + pad + '}\n'
+
+    def loop_head(self):
+        """first statement of a loop body: the reachability marker, then the unit's ghost code for this loop ('loop_ghost': {ordinal: code})"""
+        g = self.cur_spec.get('loop_ghost', {}).get(self.loop_id_stack[-1] if self.loop_id_stack else -1)
+        if g:
+            self.loop_ghost_used.add((self.cur_fn, self.loop_id_stack[-1]))
+        return 'VS_REACH(%s);%s\n' % (self.reach_label('loop'), (' ' + g) if g else '')
 
     def loopc(self, ind):
         lcs = self.cur_spec.get('loops', None)
@@ -1724,6 +1755,7 @@ class Lower:
         self.hoisted = []
         self.after_decl_used = set()
         self.ghost_used = set()
+        self.loop_ghost_used = set()
         self.hoisted_names = []
         self.loop_id_stack = []
         ret, rref, sig = self.signature(d, cname)
